@@ -71,6 +71,7 @@ class Scope:
     def __init__(self, kind):
         self.kind = kind          # 'fn' | 'block' | 'loop'
         self.dtors = []           # C statements destroying constructed locals, in construction order
+        self.exc_only = []        # destructor calls that run on exceptional exits only (object of a delegating constructor)
 
 
 class Emitter:
@@ -601,6 +602,11 @@ class Emitter:
             out += list(reversed(sc.dtors))
         return out
 
+    def exc_only_dtors(self):
+        """[except.ctor]: once the target constructor of a DELEGATING constructor has completed, the object counts as constructed:
+        if the delegating constructor's body then exits by an exception, the object's destructor runs"""
+        return list(reversed(self.scopes[0].exc_only)) if self.scopes else []
+
     def exc_exit(self):
         """statement text executed when __exc is set after a call"""
         def unwind(d):
@@ -614,7 +620,7 @@ class Emitter:
             if sc.kind == 'try':
                 d = self.all_dtors(upto='try')
                 return '{ %s goto %s; }' % (unwind(d), sc.label)
-        d = self.all_dtors()
+        d = self.all_dtors() + self.exc_only_dtors()
         if not self.cur_may_throw:
             return '{ __verif_stop("exception leaves noexcept function (std::terminate)"); }'
         return '{ %s %s }' % (unwind(d), self.zero_return())
@@ -753,6 +759,8 @@ class Emitter:
             out.append(self.construct_into('self', se, self.cur_cls) + ';')
             if self.stmt_calls_may_throw:
                 out.append(self.exc_check())
+            if self.has_nontrivial_dtor(self.cur_cls):
+                self.scopes[0].exc_only.append(self.dtor_call(self.cur_cls, 'self'))
         res = ['  ' + s for s in self.pre + out]
         self.pre = []
         return res
